@@ -508,6 +508,26 @@ def _layout(prog, res, exp, imp, eb, ib) -> None:
     # export_array itself must hand the array to tofile unchanged
     passthrough = any(isinstance(c.func, ast.Attribute) and c.func.attr == "tofile" and isinstance(c.func.value, ast.Name)
                       and c.func.value.id == ea.params()[1] for c in calls_in(ea.node))
+    # ... or flattens it first: a C-order flatten changes nothing (tofile lists in C order anyway), a memory-order flatten
+    # (order="K"/"A") makes the file depend on the array's layout
+    inner_mem = None
+    for c in calls_in(ea.node):
+        if isinstance(c.func, ast.Attribute) and c.func.attr == "tofile" and isinstance(c.func.value, ast.Call):
+            r = c.func.value
+            nm = dotted(r.func) or ""
+            base = nm.split(".")[-1] if nm else (r.func.attr if isinstance(r.func, ast.Attribute) else "")
+            if base in ("ravel", "flatten"):
+                arr = r.args[0] if nm.startswith(("np.", "numpy.")) and r.args else (r.func.value if isinstance(r.func, ast.Attribute) else None)
+                o = kwarg(r, "order")
+                if o is None:
+                    rest = r.args[1:] if nm.startswith(("np.", "numpy.")) else r.args
+                    o = rest[0] if rest else None
+                if isinstance(arr, ast.Name) and arr.id == ea.params()[1]:
+                    cv = "C" if o is None else const(o)
+                    if cv == "C":
+                        passthrough = True
+                    elif cv in ("K", "A"):
+                        inner_mem = c
     rorder = None
     rcall = None
     for st in ib["tensor"]:
@@ -522,7 +542,11 @@ def _layout(prog, res, exp, imp, eb, ib) -> None:
                 rcall = c
     desc = "dense tensor: enumeration order written == order rebuilt on import"
     where = prog.loc(exp, wcall) if wcall is not None else prog.loc(exp)
-    if worder == "MEM":
+    if inner_mem is not None:
+        res.bad("IO-layout", "export_data.export_data", desc, prog.loc(ea, inner_mem),
+                "export_array flattens what it is given in MEMORY order (order='K'/'A') before writing: an F-contiguous array (a factor matrix, "
+                "the result of double(), a transposed matrix) is then written column by column while the importer rebuilds row by row")
+    elif worder == "MEM":
         res.bad("IO-layout", "export_data.export_data", desc, where,
                 "the data is flattened in MEMORY order (order='K'/'A'): the file order then depends on how the array happens to be laid out "
                 "(a tensor whose data is C-contiguous, e.g. after growth by assignment, is written in C order) while the importer rebuilds in F order")
